@@ -152,6 +152,10 @@ func (r *c20run) scenario(x *vs.X) func(end, msg string) error {
 		conf = map[string]any{"type": "grpc/scenario", "file": "/gsc20.yaml", "limit": c.Shots}
 	case "sfail":
 		conf = map[string]any{"type": "grpc/scenario", "file": "/gsc20f.yaml", "limit": c.Shots}
+	case "sfail-method":
+		conf = map[string]any{"type": "grpc/scenario", "file": "/gsc20u.yaml", "limit": c.Shots}
+	case "sfail-type":
+		conf = map[string]any{"type": "grpc/scenario", "file": "/gsc20t.yaml", "limit": c.Shots}
 	default:
 		var sb strings.Builder
 		for _, e := range c.Entries {
@@ -193,7 +197,7 @@ func (r *c20run) scenario(x *vs.X) func(end, msg string) error {
 	var guns []gunLike
 	for i := 0; i < c.Instances; i++ {
 		deps := core.GunDeps{Ctx: context.Background(), Log: nop, PoolID: "p", InstanceID: i}
-		if c.Mode == "scenario" || c.Mode == "scodes" || c.Mode == "sfail" {
+		if c.Mode == "scenario" || c.Mode == "scodes" || strings.HasPrefix(c.Mode, "sfail") {
 			g := grpcscenario.NewGun(grpcscenario.GunConfig{Target: "t", Timeout: timeout})
 			grpcscenario.ZvBind(g, gAgg{&r.samples}, deps, grpcdynamic.NewStub(ch), services)
 			guns = append(guns, g)
@@ -248,7 +252,7 @@ func (r *c20run) scenario(x *vs.X) func(end, msg string) error {
 			return r.checkEntries()
 		case "scenario":
 			return r.checkScenario()
-		case "sfail":
+		case "sfail", "sfail-method", "sfail-type":
 			return r.checkFail()
 		case "codes":
 			return r.checkCodes()
@@ -461,6 +465,11 @@ scenarios:
   - name: s1
     requests: [c1, cbad, c2]
 `
+
+// the same scenario with a second call that names a method the target does not have / whose payload does
+// not fit the method's input type: a failed sample for that call, nothing sent, the first call undisturbed
+var c20unknownYAML = strings.Replace(strings.Replace(c20failYAML, "partial{{index .source.users 99}}", "x", 1), "call: target.TargetService.Hello\n    metadata: {part: m}", "call: target.TargetService.Nope\n    metadata: {part: m}", 1)
+var c20illTypedYAML = strings.Replace(c20failYAML, `'{"name": "partial{{index .source.users 99}}"}'`, `'{"name": {"nested": 5}}'`, 1)
 
 func mdKeys(md metadata.MD) string {
 	ks := make([]string, 0, len(md))
@@ -683,9 +692,11 @@ func c20cells(thorough bool) []C20Cell {
 		out = append(out, C20Cell{Mode: "scenario", TimeoutMs: 0, Instances: 3, Shots: 4, Bound: 1})
 	}
 	for _, shots := range []int{1, 2, 3} {
-		out = append(out, C20Cell{Mode: "sfail", TimeoutMs: 2000, Instances: 1, Shots: shots})
-		if shots > 1 {
-			out = append(out, C20Cell{Mode: "sfail", TimeoutMs: 2000, Instances: 2, Shots: shots, Bound: 1})
+		for _, mode := range []string{"sfail", "sfail-method", "sfail-type"} {
+			out = append(out, C20Cell{Mode: mode, TimeoutMs: 2000, Instances: 1, Shots: shots})
+			if shots > 1 {
+				out = append(out, C20Cell{Mode: mode, TimeoutMs: 2000, Instances: 2, Shots: shots, Bound: 1})
+			}
 		}
 	}
 	// C19 for gRPC: every status code and failure kind in every position of a 3-call history
@@ -836,6 +847,8 @@ func realGunTier(out *hutil.Out) {
 func runC20(t interface{ Fatal(...any) }, spec *hutil.Spec, out *hutil.Out, e *vs.Explorer) {
 	_ = afero.WriteFile(memfs, "/gsc20.yaml", []byte(c20scenarioYAML), 0o644)
 	_ = afero.WriteFile(memfs, "/gsc20f.yaml", []byte(c20failYAML), 0o644)
+	_ = afero.WriteFile(memfs, "/gsc20u.yaml", []byte(c20unknownYAML), 0o644)
+	_ = afero.WriteFile(memfs, "/gsc20t.yaml", []byte(c20illTypedYAML), 0o644)
 	_ = afero.WriteFile(memfs, "/gsc19.yaml", []byte(c19grpcScenarioYAML), 0o644)
 	if spec.Worker == 0 && spec.Replay == nil {
 		reflectionTier(out)
@@ -850,10 +863,10 @@ func runC20(t interface{ Fatal(...any) }, spec *hutil.Spec, out *hutil.Out, e *v
 		if spec.Property == "C20" && c.Mode == "scodes" {
 			continue
 		}
-		if spec.Property == "C19" && c.Mode != "codes" && c.Mode != "scodes" && c.Mode != "sfail" {
+		if spec.Property == "C19" && c.Mode != "codes" && c.Mode != "scodes" && !strings.HasPrefix(c.Mode, "sfail") {
 			continue
 		}
-		if spec.Property == "C10" && c.Mode != "scodes" && c.Mode != "sfail" && c.Mode != "scenario" && c.Mode != "codes" {
+		if spec.Property == "C10" && c.Mode != "scodes" && !strings.HasPrefix(c.Mode, "sfail") && c.Mode != "scenario" && c.Mode != "codes" {
 			continue // C10: one sample per call / executed step with the code it has when it is reported
 		}
 		if out.OverBudget() {
